@@ -1,6 +1,6 @@
 (* C04 — fused variable flips act as input/output bit inversion. *)
 From Coq Require Import List NArith Bool. Import ListNotations.
-From BddVerif Require Import Model.Bdd Model.Apply Proofs.Sem Proofs.Canon Proofs.ApplySem Proofs.ApplyTop.
+From BddVerif Require Import Model.Bdd Model.Apply Model.Ops Proofs.Sem Proofs.Canon Proofs.ApplySem Proofs.ApplyTop Proofs.TernSem.
 Open Scope N_scope.
 
 (* r(v) = g(v with the output-flip variable inverted), g(u) = op(a(u with a's flip inverted), b(u with b's flip inverted));
@@ -23,3 +23,18 @@ Theorem C04_flip_bounds : forall A B fa fb fo op,
   (nvars A <> nvars B \/ flips_ok (nvars A) fa fb fo = false).
 Proof. exact fused_binary_flip_op_panic_iff. Qed.
 Print Assumptions C04_flip_bounds.
+
+Theorem C04_fused_ternary_flip_semantics : forall A B C fa fb fc fo op,
+  wf A -> wf B -> wf C -> nvars A = nvars B -> nvars B = nvars C ->
+  flip_ok (nvars A) fa && flip_ok (nvars A) fb && flip_ok (nvars A) fc && flip_ok (nvars A) fo = true ->
+  exists r, fused_ternary_flip_op A B C fa fb fc fo op = Ok r /\ Canonical r /\ nvars r = nvars A /\
+    forall v, eval r v = conn3 op (eval A (oflip fa (oflip fo v))) (eval B (oflip fb (oflip fo v))) (eval C (oflip fc (oflip fo v))).
+Proof. exact fused_ternary_flip_op_correct. Qed.
+Print Assumptions C04_fused_ternary_flip_semantics.
+
+Theorem C04_ternary_flip_bounds : forall A B C fa fb fc fo op, wf A -> wf B -> wf C ->
+  (fused_ternary_flip_op A B C fa fb fc fo op = Panic <->
+   (~ (nvars A = nvars B /\ nvars B = nvars C) \/
+    flip_ok (nvars A) fa && flip_ok (nvars A) fb && flip_ok (nvars A) fc && flip_ok (nvars A) fo = false)).
+Proof. exact ternary_panic_iff. Qed.
+Print Assumptions C04_ternary_flip_bounds.
